@@ -34,6 +34,8 @@ H_STMTS = ["CREATE TABLE s.zqt1 AS SELECT zqk1, zqk2 FROM s.ta", "INSERT INTO s.
 UNSUPPORTED = "CREATE INDEX ix ON s.ta (ca)"
 B_STMTS = ["INSERT INTO s.tw SELECT * FROM s.zqt3", "INSERT INTO s.tv SELECT zqk3 FROM s.zqt3 AS a JOIN s.tc AS b ON a.id = b.id"]
 UNRELATED = {"other.tab": ["cq"]}
+# derived tables without alias are named by the library itself: whatever it keeps for that must not outlive / precede a run
+ANON_SUBQUERIES = "INSERT INTO s.ty SELECT ca FROM (SELECT ca FROM s.ta) UNION ALL SELECT cb FROM (SELECT cb FROM s.tb)"
 
 
 def md():
@@ -314,6 +316,37 @@ result = {"ok": why is None, "why": why}
 '''
 
 
+
+def shared_between_fresh_instances():
+    """two freshly built providers / analyzers must not share a mutable attribute object (a mutable default argument or a
+    class-level object handed to every instance would make one run's lookups visible to another's)"""
+    import types
+    import warnings
+
+    from sqllineage.core.metadata.dummy import DummyMetaDataProvider
+    from sqllineage.core.parser.sqlfluff.analyzer import SqlFluffLineageAnalyzer
+    from sqllineage.core.parser.sqlparse.analyzer import SqlParseLineageAnalyzer
+
+    mk = [lambda: DummyMetaDataProvider(), lambda: DummyMetaDataProvider({"a.b": ["c"]}), lambda: SqlFluffLineageAnalyzer(".", "ansi"),
+          lambda: SqlParseLineageAnalyzer()]
+    try:
+        from sqllineage.core.metadata.sqlalchemy import SQLAlchemyMetaDataProvider
+
+        mk.append(lambda: SQLAlchemyMetaDataProvider("sqlite://"))
+    except ImportError:
+        pass
+    imm = (str, int, float, bool, type(None), tuple, frozenset, type, types.FunctionType, types.ModuleType, bytes)
+    out = []
+    with warnings.catch_warnings():
+        warnings.simplefilter("ignore")
+        for f in mk:
+            a, b = f(), f()
+            for k, v in vars(a).items():
+                if v is vars(b).get(k) and not isinstance(v, imm):
+                    out.append("%s.%s is one object for every instance" % (type(a).__name__, k))
+    return out
+
+
 class FrameOb(Obligation):
     """no module-level mutable object of sqllineage.* changes across a (lifted, concrete-name) run"""
 
@@ -321,7 +354,7 @@ class FrameOb(Obligation):
         self.key = "frame/module-level-state"
 
     def prepare(self):
-        self.sc = LiftedScript(H_STMTS + B_STMTS, "ansi")
+        self.sc = LiftedScript(H_STMTS + B_STMTS + [ANON_SUBQUERIES], "ansi")
         self.sc2 = LiftedScript([s for s in H_STMTS], "tsql")
 
     @staticmethod
@@ -375,6 +408,7 @@ class FrameOb(Obligation):
             changed += [k for k in after if before.get(k) != after[k] and "lx_" not in k]
         if TWIN["on"]:
             del sqllineage.twin_probe_state
+        changed += shared_between_fresh_instances()
         return Verdict(not changed, {"changed": sorted(set(changed))})
 
     def concretise(self, verdict, model):
@@ -387,7 +421,7 @@ class FrameOb(Obligation):
 
         from lx import replay as R
 
-        snap = textwrap.dedent(inspect.getsource(FrameOb.snapshot)).replace("@staticmethod\n", "")
+        snap = textwrap.dedent(inspect.getsource(FrameOb.snapshot)).replace("@staticmethod\n", "") + "\n" + inspect.getsource(shared_between_fresh_instances)
         r = R.run_code(FRAME_REPLAY % {"snap": snap})
         if not r.get("ok"):
             return {"real_ok": False, "lifted_matches": False, "detail": r}
@@ -402,7 +436,7 @@ warnings.simplefilter("ignore")
 from sqllineage.runner import LineageRunner
 from sqllineage.config import SQLLineageConfig
 from sqllineage.core.metadata.dummy import DummyMetaDataProvider
-ANSI = "CREATE TABLE s.m AS SELECT ca, cb FROM s.ta;\nINSERT INTO s.w SELECT * FROM s.m;\nSELECT ca FROM s.m AS a JOIN s.tb AS b ON a.id = b.id"
+ANSI = "CREATE TABLE s.m AS SELECT ca, cb FROM s.ta;\nINSERT INTO s.w SELECT * FROM s.m;\nSELECT ca FROM s.m AS a JOIN s.tb AS b ON a.id = b.id;\nINSERT INTO s.ty SELECT ca FROM (SELECT ca FROM s.ta) UNION ALL SELECT cb FROM (SELECT cb FROM s.tb)"
 TSQL = "INSERT INTO s.w SELECT ca FROM s.ta\nSELECT cb INTO s.v FROM s.w\nSELECT ca FROM s.v"
 before = snapshot()
 changed = []
@@ -420,6 +454,7 @@ try:
 except Exception:
     pass
 changed += audit()
+changed += shared_between_fresh_instances()
 result = {"changed": sorted(set(changed))}
 '''
 
